@@ -226,12 +226,18 @@ def explore_yaml(chk, rng, n):
     lines, meta = [], []
     for _ in range(n):
         k = rng.choice([1, 2, 3, 4])
-        specs, ytext = [], "api_version: v1\nname: X\nspec:\n"
+        specs, ytext, applists = [], "api_version: v1\nname: X\nspec:\n", []
         for i in range(k):
             mode = rng.choice(["Client", "SERVER", "server", "client", "cLiEnT"])
             tr = rng.choice([None, None, "TCP", "sctp", "Sctp", "tcp"])
             specs.append((mode, tr))
-            ytext += "  - applications:\n      - vendor_id: VENDOR_ID_3GPP\n        app_id: DIAMETER_APPLICATION_S6a_S6d\n"
+            apps = rng.choice([["DIAMETER_APPLICATION_S6a_S6d"], ["DIAMETER_APPLICATION_S6a_S6d"], [], ["DIAMETER_APPLICATION_Gx"],
+                               ["DIAMETER_APPLICATION_Rx", "DIAMETER_APPLICATION_S6a_S6d"]])
+            applists.append(apps)
+            if apps:
+                ytext += "  - applications:\n" + "".join("      - vendor_id: VENDOR_ID_3GPP\n        app_id: %s\n" % a for a in apps)
+            else:
+                ytext += "  - applications: []\n"
             ytext += "    mode: %s\n    watchdog_timeout: %d\n" % (mode, 30 + i)
             if tr is not None:
                 ytext += "    transport_type: %s\n" % tr
@@ -247,10 +253,10 @@ def explore_yaml(chk, rng, n):
                 raise
             res = "exc:" + type(e).__name__
         lines.append("yaml " + " ".join("%s %s" % (m.encode().hex(), "-" if t is None else t.encode().hex()) for m, t in specs))
-        meta.append((specs, res))
+        meta.append((specs, res, applists))
     out = core.run_driver(lines)
-    for (specs, res), o in zip(meta, out):
-        inp = {"op": "yaml", "entries": [[m, t] for m, t in specs]}
+    for (specs, res, applists), o in zip(meta, out):
+        inp = {"op": "yaml", "entries": [[m, t, a] for (m, t), a in zip(specs, applists)]}
         chk.case(inp, kind="yaml:%d-entries" % len(specs))
         if isinstance(res, str):
             chk.violation("YAML specification could not be converted", inp, "one configuration per entry", res)
@@ -263,7 +269,7 @@ def explore_yaml(chk, rng, n):
             chk.violation("YAML entries are not mapped one-to-one with case-normalised mode/transport and TCP by default", inp, want,
                           [(r[0], r[1]) for r in res])
         for i, r in enumerate(res):
-            if r[2] != [{"vendor_id": VID, "app_id": AID}] or r[3] != "l%d" % i or r[4] != "10.0.0.%d" % i or r[5] != 30 + i:
+            if r[2] != [{"vendor_id": VID, "app_id": getattr(K, a)} for a in applists[i]] or r[3] != "l%d" % i or r[4] != "10.0.0.%d" % i or r[5] != 30 + i:
                 chk.violation("YAML entry not reflected (applications resolved by name, identities, addresses, timeout)", inp,
                               "entry %d as written" % i, str(r[2:])[:200])
     try:
